@@ -233,6 +233,36 @@ theorem nobody_request_is_empty_body (id : Bytes) (hdrs : List (Bytes × Bytes))
     requestFrames id hdrs false reads = messageFrames 1 id hdrs reads :=
   ⟨rfl, rfl, rfl⟩
 
+/-! ## the stream's writer may retain the slices it is handed
+
+`marbl.Handler.Write` (the writer of `cmd/proxy`) queues the slice itself for its websocket
+subscribers. Since `newFrame` makes a buffer per frame and nothing touches it after `w.Write`
+(`Alloc.fresh`), a retaining writer finds behind its references exactly what a copying writer stored. -/
+
+/-- ∀ sequences of written frames: retained view = copied view = the frames. -/
+theorem retaining_writer_sees_written (fs : List Bytes) :
+    (sendAll .fresh fs).retained = fs ∧ (sendAll .fresh fs).copied = fs := by
+  refine ⟨sendAll_fresh_retained fs, ?_⟩
+  have := (foldl_sendFrame_fresh fs {} ⟨by simp [WState.retained], by simp⟩).2
+  unfold sendAll
+  rw [this]; simp
+
+/-- Hence every clause proved for the written stream holds for what a subscriber receives: the
+bytes sent to a websocket subscriber parse back to the frames written, then EOF. -/
+theorem subscriber_stream_roundtrip (fs : List Frame) (hv : ∀ f ∈ fs, f.Valid) :
+    readAll (subscriberStream .fresh fs) = (fs, .err .eof) := by
+  unfold subscriberStream
+  rw [(retaining_writer_sees_written _).1]
+  exact stream_roundtrip fs hv
+
+/-- Why the buffers must not be recycled after `Write` returned (concrete witness, `decide`): with a
+free list the copying writer still stores the right stream, the retaining writer finds the last
+frame in every slot. -/
+theorem pooled_buffers_counterexample :
+    (sendAll .pooled [strBytes "ab", strBytes "cd", strBytes "ef"]).copied = [strBytes "ab", strBytes "cd", strBytes "ef"] ∧
+    (sendAll .pooled [strBytes "ab", strBytes "cd", strBytes "ef"]).retained = [strBytes "ef", strBytes "ef", strBytes "ef"] := by
+  decide
+
 /-! ## non-vacuity: the hypotheses above are satisfiable by a concrete two-message interleaving -/
 
 def idA : Bytes := strBytes "aaaaaaaa"
@@ -257,5 +287,9 @@ set_option maxRecDepth 8192 in
 example : (readAll (encodeAll exL)).1.filter (fun f => f.key == (idA, 1)) = [a1, a2, a3] := by decide
 set_option maxRecDepth 8192 in
 example : (readAll (encodeAll exL)).2 = .err .eof := by decide
+
+example : (readAll (subscriberStream .fresh exL)).1.filter (fun f => f.key == (idA, 1)) = [a1, a2, a3] := by
+  rw [subscriber_stream_roundtrip exL (by decide)]; decide
+example : readAll (subscriberStream .pooled [a2, a3]) ≠ ([a2, a3], .err .eof) := by decide
 
 end Martian.Props.C19
